@@ -172,6 +172,24 @@ mod verif_battery_c09_wrapper {
         assert_eq!(s.update_imds_rule_id(String::new()).await.unwrap().0, true, "rules removed (empty id) must be reported as an update");
         assert_eq!(s.update_hostga_rule_id(String::new()).await.unwrap().0, true, "rules removed (empty id) must be reported as an update");
         assert_eq!(s.update_wireserver_rule_id(String::new()).await.unwrap().0, false);
+        // every slot keeps its own value: rules, rule ids and state of the three endpoints set to distinct values and read back
+        let item = |id: &str| Some(crate::key_keeper::key::AuthorizationItem { defaultAccess: "deny".to_string(), mode: "enforce".to_string(), rules: None, id: id.to_string() });
+        s.set_wireserver_rules(item("ws-rules")).await.unwrap();
+        s.set_imds_rules(item("imds-rules")).await.unwrap();
+        s.set_hostga_rules(item("hga-rules")).await.unwrap();
+        s.update_wireserver_rule_id("ws-id".to_string()).await.unwrap();
+        s.update_imds_rule_id("imds-id".to_string()).await.unwrap();
+        s.update_hostga_rule_id("hga-id".to_string()).await.unwrap();
+        assert_eq!(s.get_wireserver_rules().await.unwrap().map(|r| r.id), Some("ws-rules".to_string()));
+        assert_eq!(s.get_imds_rules().await.unwrap().map(|r| r.id), Some("imds-rules".to_string()));
+        assert_eq!(s.get_hostga_rules().await.unwrap().map(|r| r.id), Some("hga-rules".to_string()));
+        assert_eq!(s.get_wireserver_rule_id().await.unwrap(), "ws-id");
+        assert_eq!(s.get_imds_rule_id().await.unwrap(), "imds-id");
+        assert_eq!(s.get_hostga_rule_id().await.unwrap(), "hga-id");
+        s.set_imds_rules(None).await.unwrap();
+        assert!(s.get_imds_rules().await.unwrap().is_none());
+        assert_eq!(s.get_wireserver_rules().await.unwrap().map(|r| r.id), Some("ws-rules".to_string()));
+        assert_eq!(s.get_hostga_rules().await.unwrap().map(|r| r.id), Some("hga-rules".to_string()));
         assert_eq!(s.update_current_secure_channel_state("x".to_string()).await.unwrap(), true);
         assert_eq!(s.update_current_secure_channel_state("x".to_string()).await.unwrap(), false);
         assert_eq!(s.get_current_secure_channel_state().await.unwrap(), "x");
